@@ -182,7 +182,13 @@ def run_check(modname, tier, jobs=None, only=None):
     t0 = time.time()
     mod = importlib.import_module(modname)
     prop = mod.PROPERTY
-    units = _units_of(mod, tier)
+    try:
+        units = _units_of(mod, tier)
+    except Exception as e:  # noqa
+        # enumerating the units runs library code on concrete values (tables, snapshot files): a failure there is
+        # neither a verdict nor a pass
+        print(f"[{prop} {tier}] HARNESS-ERROR unit enumeration failed: {e!r}\n{traceback.format_exc(limit=8)}")
+        return EXIT_INCONCLUSIVE
     names = [n for n in units if only is None or fnmatch.fnmatchcase(n, only)]
     jobs = jobs or int(os.environ.get("VERIF_JOBS", "0") or 0) or min(16, os.cpu_count() or 4)
     results = []
